@@ -20,6 +20,12 @@ legs
   read_mac       read_with_mac over block selections, genuine and with random
                  changes in transit (gen)
   felica_protect protect(pw) then authenticate(pw) / authenticate(other) (gen)
+  felica_hist_enum / felica_history
+                 histories on ONE tag object: authenticate, protect, plain
+                 and MAC'd writes, NDEF write/read, read_with_mac in every
+                 order (enum: all sequences of <= 2 operations + a fixed
+                 tail; gen: 2-6 generated operations), Lite-S with both
+                 write counter policies
   ntag_auth      PWD_AUTH/PACK: authenticate(p) == [PWD and PACK match] (gen)
   ntag_flips     all 48 single-bit changes of the right password (enum)
   ntag_tamper    every single-bit flip and random changes of the PACK answer
@@ -35,7 +41,7 @@ import nfc.tag.tt2_nxp
 import nfc.tag.tt3_sony
 from vlib import ref_felica as ref
 from vlib import simfelica, simntag, tagdev, vsched
-from vlib.engine import HarnessError, Leg, Violation, innermost
+from vlib.engine import HarnessError, Leg, Violation, innermost, unexpected
 
 PROPERTY = "C20"
 LEVEL = "exploration"
@@ -839,6 +845,343 @@ def run_felica_protect(case, ctx):
         check_auth_result(ctx, "after protect: authenticate", o, expected, p)
 
 
+# --------------------------------------------------------- felica_history
+# Several operations on ONE tag object.  The reader side keeps state between
+# operations (session key, authentication status, the methods bound to the
+# NDEF services) and so does the tag (challenge, card key, EXT_AUTH, the
+# Lite-S write counter that every write advances): "returns true exactly
+# when the tag holds the key" is a statement about every such history.
+HIST_PW1 = b"hist-password-01"            # ASCII, 16 byte
+HIST_PW2 = b"Second-Password2"
+
+
+def hist_sim(case):
+    prod = case["prod"]
+    kw = dict(key=case["key0"], ndef=case.get("ndef", True),
+              user=user_blocks(case.get("fill", 0), case.get("ndef", True)))
+    if prod == "lites":
+        cls = simfelica.SimFelicaLiteSCountRC if case.get("count_rc") \
+            else simfelica.SimFelicaLiteS
+        return cls(wcnt=case.get("wcnt", 0), **kw)
+    return simfelica.SimFelicaLite(**kw)
+
+
+def _ndef_read(tag):
+    n = tag.ndef
+    if n is not None:
+        n.has_changed
+        n = tag.ndef
+    return None if n is None else bytes(n.octets)
+
+
+def _ndef_write(tag, ln):
+    n = tag.ndef
+    if n is None:
+        return "no-ndef"
+    if not n.is_writeable:
+        return "read-only"
+    n.octets = bytes((7 * i + ln) & 255 for i in range(min(ln, n.capacity)))
+    return "written"
+
+
+def run_felica_history(case, ctx):
+    prod = case["prod"]
+    sim = hist_sim(case)
+    clf, tag = activate(sim, FELICA_CLS[prod], prod)
+    vsched.seed_urandom(case["useed"])
+    steps = case["steps"]
+    ctx.set_class("%s/history" % prod)
+    # True: the last authenticate returned True; False: it returned False
+    # (the tag took a new challenge, the reader kept the old session key);
+    # None: not known (protect() authenticates internally on Lite-S, ...)
+    session_ok = None
+    ever_auth = False
+    prev = "start"
+    for idx, step in enumerate(steps):
+        op = step["op"]
+        if op == "auth":
+            pw = step["pw"]
+            k = felica_key_of(pw)
+            expected = None if k is None else ref.same_des_key(k, sim.key)
+            ctx.label("hist:%s:%s>auth:expect-%s" % (prod, prev, expected))
+            ctx.set_class("%s/history/%s>auth" % (prod, prev))
+            if idx >= 1 and expected is not None:
+                ctx.nontrivial()
+            out = call(ctx, tag.authenticate, typed(pw, step.get("type")))
+            check_auth_result(ctx, "step %d of %s: %s.authenticate" % (
+                idx, "+".join(s["op"] for s in steps), prod), out, expected,
+                pw)
+            if out[0] == "ok" and \
+                    bool(tag.is_authenticated) != (out[1] is True):
+                raise Violation("is_authenticated-disagrees",
+                                "step %d returned %r, is_authenticated %r"
+                                % (idx, out[1], tag.is_authenticated))
+            if out[0] == "ok":
+                session_ok = out[1] is True
+            elif out[0] != "value":     # ValueError: nothing was exchanged
+                session_ok = None
+            ever_auth = ever_auth or session_ok is True
+        elif op == "protect":
+            pw, form = step["pw"], step["form"]
+            arg = pw.decode("latin-1") if form == "str" else typed(pw, form)
+            k = felica_key_of(pw)
+            issuance = bytes(sim.mc[0:3]) == b"\xff\xff\xff" and \
+                not any(sim.mc[5:12])
+            ctx.set_class("%s/history/%s>protect" % (prod, prev))
+            out = call(ctx, tag.protect, arg, step["read_protect"],
+                       step["protect_from"])
+            kind, val = out
+            ctx.label("hist:%s:protect(%s):%s" % (
+                prod, "issuance" if issuance else "protected",
+                kind if kind != "ok" else val))
+            if k is None:
+                if kind == "ok" and val is True:
+                    raise Violation("short-password-accepted",
+                                    "protect(%r) -> True" % (arg,))
+            elif kind == "tce" and issuance:
+                raise Violation("protect-error-without-interference",
+                                "step %d: protect(%r, %r, %r) -> %r" % (
+                                    idx, arg, step["read_protect"],
+                                    step["protect_from"], val))
+            elif kind == "ok" and val is True:
+                if not ref.same_des_key(sim.key, k):
+                    raise Violation("protect-stored-other-key",
+                                    "protect(%r) -> True, tag key is now %s"
+                                    % (arg, sim.key.hex()))
+            elif kind == "ok" and val is not False:
+                raise Violation("protect-result-not-bool", repr(val))
+            session_ok = None
+        elif op == "wplain":
+            out = call(ctx, tag.write_without_mac, bytearray(step["data"]),
+                       step["block"])
+            ctx.label("hist:%s:wplain:%s" % (prod, out[0]))
+        elif op == "wmac":
+            if prod != "lites" or not ever_auth:
+                ctx.label("hist:wmac-skipped")
+                continue
+            out = call(ctx, tag.write_with_mac, bytearray(step["data"]),
+                       step["block"])
+            ctx.label("hist:%s:wmac:%s" % (prod, out[0]))
+        elif op == "ndef-write":
+            out = call(ctx, _ndef_write, tag, step["len"])
+            ctx.label("hist:%s:ndef-write:%s" % (
+                prod, out[1] if out[0] == "ok" else out[0]))
+        elif op == "ndef-read":
+            plan = step.get("plan")
+            # an NDEF read of an authenticated tag uses reads with MAC: a
+            # response modified in transit must end in no data (or a tag
+            # command error), never in an exception of another kind and
+            # never in octets the tag does not hold
+            want = None
+            if plan is not None:
+                try:
+                    attr = sim.genuine(0)
+                    ln = int.from_bytes(attr[11:14], "big")
+                    want = b"".join(sim.genuine(n) for n in range(
+                        1, 1 + (ln + 15) // 16))[0:ln]
+                except Exception:
+                    want = None
+            def flip(rel, cmd, rsp, bit=plan):
+                # one bit inside the MAC-protected part (data or MAC) of a
+                # read response; other exchanges pass unchanged
+                regs = protected_regions(cmd, rsp)
+                if not regs:
+                    return rsp
+                a, b = regs[0]
+                out_ = bytearray(rsp)
+                out_[a + (bit // 8) % (b - a)] ^= 1 << (bit % 8)
+                return bytes(out_)
+            t = Tamper(clf.device, dict((str(k), flip) for k in range(1, 9))
+                       if plan is not None else {})
+            clf.device.tamper = t
+            try:
+                out = call(ctx, _ndef_read, tag)
+            finally:
+                clf.device.tamper = None
+            ctx.label("hist:%s:ndef-read:%s%s" % (
+                prod, out[0], ":tampered" if t.changed else ""))
+            if t.changed and ever_auth:
+                ctx.set_class("%s/history/%s>ndef-read" % (prod, prev))
+                if out[0] == "other":
+                    raise unexpected(out[1], "tampered-ndef-read-raises")
+                if out[0] == "ok" and out[1] is not None and t.touched \
+                        and want is not None and out[1] != want:
+                    raise Violation("altered-data-returned",
+                                    "step %d: tag.ndef.octets %s, the tag "
+                                    "holds %s" % (idx, out[1].hex(),
+                                                  want.hex()))
+        elif op == "rmac":
+            if not ever_auth:
+                ctx.label("hist:rmac-skipped")
+                continue
+            blocks, plan = step["blocks"], step.get("plan")
+            valid = selection_valid(sim, blocks)
+            genuine = sim.genuine(*blocks) if valid else None
+            t = Tamper(clf.device, {"1": plan} if plan else {})
+            clf.device.tamper = t
+            try:
+                out = call(ctx, tag.read_with_mac, *blocks)
+            finally:
+                clf.device.tamper = None
+            kind, val = out
+            ctx.set_class("%s/history/%s>rmac" % (prod, prev))
+            ctx.label("hist:%s:rmac:%s:%s" % (
+                prod, {True: "session", False: "no-session",
+                       None: "session-unknown"}[session_ok],
+                kind if kind != "ok" else "none" if val is None else "data"))
+            if kind != "ok" or val is None:
+                if session_ok and not t.changed and valid and kind != "other":
+                    raise Violation("genuine-read-rejected",
+                                    "step %d: read_with_mac%r -> %r" % (
+                                        idx, tuple(blocks), val))
+            else:
+                got = bytes(val)
+                if not valid or got != genuine:
+                    raise Violation("altered-data-returned",
+                                    "step %d: read_with_mac%r -> %s, the tag "
+                                    "holds %s" % (idx, tuple(blocks),
+                                                  got.hex(), genuine and
+                                                  genuine.hex()))
+                if t.touched:
+                    raise Violation("modified-mac-accepted",
+                                    "step %d: read_with_mac%r returned data "
+                                    "although data/MAC bytes were modified "
+                                    "(ops %r)" % (idx, tuple(blocks), plan))
+                if session_ok is False:
+                    # the tag took a new challenge (or another key) since the
+                    # session key was computed: its MAC cannot verify
+                    raise Violation("read-accepted-without-session",
+                                    "step %d: read_with_mac%r returned data "
+                                    "after the last authenticate failed"
+                                    % (idx, tuple(blocks)))
+        else:
+            raise HarnessError("unknown step %r" % (step,))
+        prev = op
+
+
+def _hstep_auth(pw, kind="same"):
+    return {"op": "auth", "kind": kind, "pw": pw, "type": "bytes"}
+
+
+def enum_felica_history(tier, seed):
+    """every sequence of 0..2 operations out of the alphabet, followed by
+    authenticate(right key), read_with_mac, authenticate(other key); Lite,
+    Lite-S and Lite-S counting RC writes"""
+    alphabet = ["auth", "auth-wrong", "protect", "wplain", "wmac",
+                "ndef-write", "ndef-read", "rmac"]
+    seqs = [[]] + [[a] for a in alphabet] + \
+        [[a, b] for a in alphabet for b in alphabet]
+    if tier != "quick":
+        seqs += [[a, b, c] for a in alphabet for b in alphabet
+                 for c in alphabet]
+    configs = [("lite", False), ("lites", False), ("lites", True)]
+    for ci, (prod, count_rc) in enumerate(configs):
+        for si, seq in enumerate(seqs):
+            h = seeded_key(seed, 8000 + ci * 100000 + si, 24)
+            # a tag in issuance state (factory key) or holding a seeded key
+            key0 = None if si % 3 == 0 else h[0:16]
+            cur = key0 or bytes(16)
+            steps = []
+            pws = [HIST_PW1, HIST_PW2]
+            for name in seq + ["auth", "rmac", "auth-wrong", "auth"]:
+                if name == "auth":
+                    steps.append(_hstep_auth(cur))
+                elif name == "auth-wrong":
+                    bit = 1 + h[16] % 7 + 8 * (h[17] % 16)   # never parity
+                    steps.append(_hstep_auth(flip_bits(cur, [bit]),
+                                             "flip-keybit"))
+                elif name == "protect":
+                    pw = pws.pop(0) if pws else HIST_PW1
+                    steps.append({"op": "protect", "pw": pw,
+                                  "form": "str" if h[18] % 2 else "bytes",
+                                  "read_protect": h[19] % 4 == 0,
+                                  "protect_from": [0, 1, 14][h[20] % 3]})
+                    cur = pw
+                elif name == "wplain":
+                    steps.append({"op": "wplain", "block": 1 + h[21] % 13,
+                                  "data": h[0:16]})
+                elif name == "wmac":
+                    steps.append({"op": "wmac", "block": 1 + h[22] % 13,
+                                  "data": h[8:24]})
+                elif name == "ndef-write":
+                    steps.append({"op": "ndef-write", "len": 1 + h[23] % 40})
+                elif name == "ndef-read":
+                    st_ = {"op": "ndef-read"}
+                    if si % 2:      # every other history: one bit flipped
+                        st_["plan"] = h[22] + 256 * h[23]
+                    steps.append(st_)
+                else:
+                    steps.append({"op": "rmac", "blocks": [1 + h[21] % 13, 0]})
+            yield {"prod": prod, "count_rc": count_rc, "key0": key0,
+                   "ndef": True, "fill": si, "wcnt": [0, 0xFE, 0xFFFE][si % 3],
+                   "useed": (seed * 7919 + si) & 0xFFFFFFFF, "steps": steps}
+
+
+@st.composite
+def gen_felica_history(draw):
+    prod = draw(st.sampled_from(["lites", "lites", "lites", "lite"]))
+    key0 = draw(st.one_of(st.none(), key16, key16))
+    keys = [key0 or bytes(16)]
+    steps = []
+    for _ in range(draw(st.integers(2, 6))):
+        op = draw(st.sampled_from(
+            ["auth"] * 6 + ["protect"] * 2 + ["wplain"] * 2 +
+            ["wmac", "ndef-write", "ndef-read", "rmac", "rmac"]))
+        if op == "auth":
+            base = draw(st.sampled_from(keys[-2:] + keys[-1:] * 2))
+            if draw(st.integers(0, 9)) < 6:
+                kind, pw = "same", base
+            else:
+                kind, pw = draw(felica_password(base))
+            steps.append({"op": "auth", "kind": kind, "pw": pw,
+                          "type": draw(st.sampled_from(
+                              ["bytes", "bytes", "bytearray"]))})
+        elif op == "protect":
+            form = draw(st.sampled_from(["str", "str", "bytes", "bytearray"]))
+            pw = draw(ascii16 if form == "str" else key16)
+            shape = draw(st.sampled_from(["key"] * 6 + ["extra", "empty",
+                                                        "short"]))
+            if shape == "extra":
+                pw = pw + b"tail"
+            elif shape == "empty":
+                pw = b""
+            elif shape == "short":
+                pw = pw[0:draw(st.integers(1, 15))]
+            steps.append({"op": "protect", "pw": pw, "form": form,
+                          "read_protect": draw(st.sampled_from(
+                              [False, False, False, True])),
+                          "protect_from": draw(st.sampled_from(
+                              [0, 0, 1, 5, 13, 14, 15]))})
+            if felica_key_of(pw) is not None:
+                keys.append(felica_key_of(pw))
+        elif op in ("wplain", "wmac"):
+            steps.append({"op": op, "block": draw(st.integers(0, 14)),
+                          "data": draw(key16)})
+        elif op == "ndef-write":
+            steps.append({"op": op, "len": draw(st.integers(0, 60))})
+        elif op == "ndef-read":
+            step = {"op": op}
+            if draw(st.integers(0, 1)) == 0:
+                step["plan"] = draw(st.integers(0, 4095))
+            steps.append(step)
+        else:
+            n = draw(st.sampled_from([1, 2, 3]))
+            pool = list(range(15)) + [0x82, 0x86, 0x88] + \
+                ([0x90, 0x92] if prod == "lites" else [])
+            step = {"op": "rmac", "blocks": draw(st.lists(
+                st.sampled_from(pool), min_size=n, max_size=n))}
+            if draw(st.integers(0, 3)) == 0:
+                step["plan"] = draw(frame_ops(hot=(13, 13 + 16 * n + 8)))
+            steps.append(step)
+    return {"prod": prod, "count_rc": draw(st.booleans()), "key0": key0,
+            "ndef": draw(st.sampled_from([True, True, True, False])),
+            "fill": draw(st.integers(0, 999)),
+            "wcnt": draw(st.one_of(
+                st.sampled_from([0, 0, 1, 0xFD, 0xFE, 0xFF, 0xFFFD, 0xFFFE,
+                                 0xFFFF]), st.integers(0, 0xFFF000))),
+            "useed": draw(useed_), "steps": steps}
+
+
 # ------------------------------------------------------------------- NTAG
 NTAG_CLS = {"NTAG210": nfc.tag.tt2_nxp.NTAG210,
             "NTAG212": nfc.tag.tt2_nxp.NTAG212,
@@ -1168,6 +1511,37 @@ LEGS = [
              "str (Lite-S), the form the product does not take is labelled; "
              "non-trivial = protect succeeded and the other password differs "
              "in a non-parity bit."),
+    Leg("felica_hist_enum", run=run_felica_history, enum=enum_felica_history,
+        exhaustive=True, shards_quick=6, shards_thorough=16,
+        rule="histories on ONE tag object: every sequence of 0, 1 or 2 "
+             "(thorough: 3) operations out of {authenticate(card key), "
+             "authenticate(key with one non-parity bit flipped), "
+             "protect(password, str or bytes), write_without_mac, "
+             "write_with_mac, NDEF write, NDEF re-read, read_with_mac}, "
+             "followed by authenticate(key the tag should hold now), "
+             "read_with_mac, authenticate(one key bit flipped), "
+             "authenticate(key) again; on FeliCa Lite, Lite-S, and Lite-S "
+             "whose write counter also counts RC writes; tag in issuance "
+             "state or holding a seeded key; start value of the write "
+             "counter 0 / FEh / FFFEh.  Every authenticate is judged by the "
+             "key the simulator holds at that moment (as a DES key), every "
+             "read_with_mac by the simulator's memory; a successful "
+             "protect(pw) must leave key(pw) on the tag.  non-trivial = an "
+             "authenticate that is not the first operation on the object."),
+    Leg("felica_history", run=run_felica_history,
+        gen=lambda tier: gen_felica_history(), quick=400, thorough=12000,
+        shards_quick=4, shards_thorough=16, nt_floor=0.3,
+        rule="generated histories of 2-6 operations on one FeliCa Lite / "
+             "Lite-S tag object: authenticate (the current or the previous "
+             "key, exact or one of the felica_auth password variants), "
+             "protect (password forms and shapes of felica_protect, "
+             "read_protect, protect_from), write_without_mac / "
+             "write_with_mac of a block 0..14, NDEF write, NDEF re-read, "
+             "read_with_mac of 1-3 blocks (a quarter with 1-4 random frame "
+             "modifications); Lite-S with either write counter policy and a "
+             "generated counter start value (byte carries); oracles as in "
+             "felica_hist_enum; non-trivial = an authenticate that is not "
+             "the first operation on the object."),
     Leg("ntag_auth", run=run_ntag_auth, gen=lambda tier: gen_ntag_auth(),
         quick=3000, thorough=60000, shards_quick=2, shards_thorough=8,
         nt_floor=0.3,
